@@ -149,22 +149,26 @@ class ImplResult:
     pass
 
 _DROP = {}
+_DROP_LOCK = __import__('threading').Lock()
 ROT = {'as_user': 0, 'prior': 0}      # how often the generic rotations actually applied (recorded in the evidence)
 def can_drop(tools, uid):
     """True when the harness can start the parser as the unprivileged user `uid` and that user can reach the binary and the work directory (probed once;
     a checkout below a 0700 home directory, a harness that is not root, or a sandbox without CAP_SETUID switch the `as_user` rotation off)"""
-    if uid not in _DROP:
-        ok = False
-        if os.geteuid() == 0:
-            d = os.path.join(tools.work, 'dropprobe'); os.makedirs(d, exist_ok=True); f = os.path.join(d, 'readable')
-            open(f, 'w').write('x'); os.chown(d, uid, uid)
-            def pre(): os.setgroups([]); os.setgid(uid); os.setuid(uid)
-            try:
-                ok = all(subprocess.run(['/bin/sh', '-c', 'test -x "$0" && test -r "$1" && test -w "$2" && "$0" --version >/dev/null', b_, f, d], preexec_fn=pre, capture_output=True, timeout=30).returncode == 0
-                         for b_ in [tools.bin] + ([tools.bin_release] if getattr(tools, 'bin_release', None) else []))
-            except Exception: ok = False
-            shutil.rmtree(d, ignore_errors=True)
-        _DROP[uid] = ok
+    with _DROP_LOCK:      # (cases run in a thread pool: probe once, under a lock)
+        if uid not in _DROP:
+            ok = False
+            if os.geteuid() == 0:
+                d = os.path.join(tools.work, 'dropprobe_%d_%d' % (uid, time.time_ns() % 10**9))
+                try:
+                    os.makedirs(d, exist_ok=True); f = os.path.join(d, 'readable')
+                    with open(f, 'w') as fh: fh.write('x')
+                    os.chown(d, uid, uid)
+                    def pre(): os.setgroups([]); os.setgid(uid); os.setuid(uid)
+                    ok = all(subprocess.run(['/bin/sh', '-c', 'test -x "$0" && test -r "$1" && test -w "$2" && "$0" --version >/dev/null', b_, f, d], preexec_fn=pre, capture_output=True, timeout=30).returncode == 0
+                             for b_ in [tools.bin] + ([tools.bin_release] if getattr(tools, 'bin_release', None) else []))
+                except Exception: ok = False
+                shutil.rmtree(d, ignore_errors=True)
+            _DROP[uid] = ok
     return _DROP[uid]
 
 def run_impl(tools, case, cb, datadir=None, outdir=None, release=False, env=None, preexec=None, verbosity=0, keep=False, timeout=90, wrapper=None, prefill=None, _attempt=0):
